@@ -140,7 +140,7 @@ FUNCS = {
     "trimSuffix": lambda p, s: s[:-len(p)] if p and s.endswith(p) else s,
     "base": lambda s: _go_base(s), "dir": lambda s: _go_dir(s), "clean": lambda s: _go_clean(s),
     "exported": _exported,
-    "snakecase": lambda s: "_".join(w.lower() for w in _words(s)),
+    "snakecase": lambda s: s[:len(s) - len(s.lstrip("_"))] + "_".join(w.lower() for w in _words(s)),   # leading underscores are kept (xstrings)
     "kebabcase": lambda s: "-".join(w.lower() for w in _words(s)),
     "hasPrefix": lambda p, s: s.startswith(p), "hasSuffix": lambda p, s: s.endswith(p), "contains": lambda p, s: p in s,
     "eq": lambda a, b: a == b, "ne": lambda a, b: a != b, "not": lambda a: not _truth(a),
